@@ -19,7 +19,8 @@ where
 {
     fn write_xml(&self, writer: &mut W) -> WriterResult<()> {
         for (operation_name, operation) in &self.operations {
-            writeln!(writer, "\n/* {operation_name} */\n")?;
+            // the name is schema text: keep it from closing the comment
+            writeln!(writer, "\n/* {} */\n", operation_name.replace("*/", "* /"))?;
 
             // input
             let operation_name = to_pascal_case(operation_name);
@@ -104,7 +105,7 @@ where
     }
     let namespaces = xmlns
         .iter()
-        .map(|(k, v)| format!("\"{k}\" = \"{v}\""))
+        .map(|(k, v)| format!("{k:?} = {v:?}"))
         .collect::<Vec<String>>()
         .join(", ");
 
@@ -130,10 +131,10 @@ where
                 let abbreviation = namespace.abbreviation.as_str();
                 writeln!(
                     writer,
-                    "#[yaserde(prefix = \"{abbreviation}\", rename = \"{xml_name}\")]"
+                    "#[yaserde(prefix = {abbreviation:?}, rename = {xml_name:?})]"
                 )?;
             } else {
-                writeln!(writer, "    #[yaserde(rename = \"{xml_name}\")]")?;
+                writeln!(writer, "    #[yaserde(rename = {xml_name:?})]")?;
             }
 
             // todo: we should check if the "mustUnderstand" == 1 to make the field required
@@ -173,7 +174,7 @@ where
 
     if let Some(namespace) = soap_operation.body.in_namespace.as_ref() {
         let abbreviation = namespace.abbreviation.as_str();
-        writeln!(writer, "#[yaserde(prefix = \"{abbreviation}\", {yaserde_ns_header})]")?;
+        writeln!(writer, "#[yaserde(prefix = {abbreviation:?}, {yaserde_ns_header})]")?;
     } else {
         writeln!(writer, "#[yaserde(rename = \"Envelope\", {yaserde_ns_header})]")?;
     }
@@ -185,11 +186,11 @@ where
         let abbreviation = namespace.abbreviation.as_str();
         writeln!(
             writer,
-            "    #[yaserde(prefix = \"{abbreviation}\", rename = \"{xml_name}\")]"
+            "    #[yaserde(prefix = {abbreviation:?}, rename = {xml_name:?})]"
         )?;
         writeln!(writer, "    pub {body_field_name}: {mod_name}::{body},",)?;
     } else {
-        writeln!(writer, "    #[yaserde(rename = \"{xml_name}\")]")?;
+        writeln!(writer, "    #[yaserde(rename = {xml_name:?})]")?;
         writeln!(writer, "    pub {body_field_name}: {body},")?;
     }
     writeln!(writer, "}}")?;
